@@ -15,7 +15,9 @@ CLAIMS = {
        "runInfo.env == old(runInfo.env), proved on EVERY exit (normal, break/continue/return sentinel, error) of every run*/invoke* function against the same postcondition of its callees, so nesting to any depth follows by induction; "
        "ctx/options are never changed; closures: the function body runner (funcExpr$1) runs in a fresh child of the captured scope (captures clause checked where the closure is created); name resolution and binding forms rest on the env contracts of C12 "
        "(GetValue = nearest binding, SetValue = nearest or error, DefineValue = this scope). Frames: an evaluator changes only its activation's outgoing fields, environment contents and AST positions of nodes it allocated. "
-       "Not yet decided by contracts: WHICH scope each block body runs in (fresh child of the old scope) beyond what restoring implies, and that var/for-in/catch/params define in the current scope (planned via the activation trace).",
+       "Call-site clauses decide WHICH scope bodies run in: the branches of if/else-if/else, switch subject/cases/body, try/catch/finally blocks and loop bodies run in a fresh child of the statement's scope (fresh(runInfo.env) && parent == old scope at every runSingleStmt call); for-in helpers run in the scope runForStmt made; "
+       "a function value captures exactly the scope it is defined in (obligation where the closure is created), every invocation runs the body in a FRESH child of the captured scope and binds its parameters there; the catch variable is defined in the try statement's own scope. "
+       "Not decided: that var/for-in variables are defined (not set) in the current scope beyond these call-site clauses.",
   note=TRUST + "Assumed: AST well-formedness facts the parser guarantees (no typed-nil nodes, module names without dots, C-for init is a var/assignment); reflect calls other than Call/CallSlice/Select do not touch interpreter state; function values with the VM signature obey the VM-function protocol.",
   technique="contract-based deductive verification: scope-restoration postcondition on every evaluator, VCs from go/ssa, z3/cvc5",
   ref="4 C04"),
@@ -23,7 +25,9 @@ CLAIMS = {
   text="Deductive proof of the sentinel protocol over all evaluators: every loop form consumes break/continue on every exit (err != ErrBreak && err != ErrContinue), passes return up, expression evaluators never leave a sentinel "
        "(so a sentinel can only originate from a statement list), helper errors (conversion, env, strconv) are never sentinels, the sentinels are distinct non-nil values (global invariant proved at the exit of the package initialiser, "
        "preserved because no function outside init stores to them), statements start from a clean error state, RunContext turns ErrReturn into a normal result. One known finding (runChanStmt ignores the ok-assignment error). "
-       "Not yet decided: which branch/case is selected, iteration order of for-in, that the C-for post expression runs after continue (planned via the activation trace).",
+       "Over the activation trace: if/else-if/else evaluates its conditions in source order and runs exactly the first branch whose condition is truthy (else the else branch); switch evaluates its subject first, compares case expressions with vm.equal until the first equal one and runs exactly that case body (else the default); "
+       "the outcome of the chosen body - value, error, break/continue/return signal - is the outcome of the statement (a switch or if that swallows a break fails); a block stops at its first failing statement and reports that statement's outcome, break/continue/return statements produce their signal; loops stop at the first signal and hand return values up; for-over-map presents the k-th reported key to the k-th iteration and visits every key. "
+       "Two known findings (runChanStmt ignores the ok-assignment error; try/catch swallows return/break/continue - both pinned by the existing suite). Not decided: index order of for-in over slices as a postcondition, that the C-for post expression runs after continue.",
   note=TRUST + "Assumed: VM-function protocol (a function value with the VM signature never returns a sentinel as its error); env error values are distinct objects from the vm sentinels.",
   technique="contract-based deductive verification: sentinel-discipline postconditions and loop invariants, VCs from go/ssa, z3/cvc5",
   ref="4 C08"),
@@ -39,7 +43,9 @@ CLAIMS = {
  'C09': dict(
   text="Deductive proof of the deferred-call bookkeeping: runDefers preserves the invocation's result value, clears the list before running it (a deferred call cannot re-run it), keeps a real body error in preference to a deferred one and otherwise reports the first deferred error "
        "(loop invariants over the local rv/err), callDeferredFunc changes only err; newError/newStringError results are non-nil *vm.Error values; recoverFunc leaves err alone when nothing panicked. runTryStmt/runDeferStmt are covered for scope, sentinel and cancellation discipline (C04/C08/C02). "
-       "Not yet decided: catch/finally sequencing, LIFO order and exactly-once of the deferred calls (planned via the activation trace).",
+       "Over the activation trace: the try block runs first, catch exactly when it left a (non-interrupt) error with the error bound to the catch variable in the statement's scope, finally after a try that succeeded or whose error was caught and handled, the outcome is that of the last block run; "
+       "runDefers runs every registered call exactly once, in reverse order of registration (ncalls == len(defers), k-th call is defers[len-1-k]), and the first error a deferred call raises surfaces exactly when the body did not fail; a throw statement always leaves an error (the proof found `throw \"\"` to be a no-op; repaired by a fix: commit). "
+       "Known finding (shared with C08): the catch block also catches return/break/continue signals. Not decided: that defer arguments are captured at the defer statement, deferred calls at top level.",
   note=TRUST + "Assumed: VM-function protocol; reflect.Value.Call semantics.",
   technique="contract-based deductive verification: loop invariants over the deferred-call runner, VCs from go/ssa, z3/cvc5",
   ref="4 C09"),
@@ -50,7 +56,8 @@ CLAIMS = {
        "nearest binding (whole-heap postcondition: the value heap equals the old one updated at that one key, the key sets are unchanged) or fails changing nothing; Define*/Delete change "
        "exactly the addressed key of the addressed scope (quantified 'all other keys unchanged'), dotted names are rejected with nothing changed; DefineGlobal* act on the root; constructors and Copy "
        "return fresh objects (fresh maps) and leave the source untouched; frames (modifies) and panic-freedom (nil map writes, nil derefs, index) are obligations on every function. "
-       "Not decided: that Copy's new maps have the same CONTENT as the source (needs a map-iteration model with a visited set), DeepCopy's chain shape, the element order of symbol listings.",
+       "DeepCopy: the copy shares no scope with the original down to three levels of the chain (each level follows from the level above of the recursive call; the full induction is not one obligation). "
+       "Not decided: that Copy's new maps have the same CONTENT as the source (needs a map-iteration model with a visited set), the element order of symbol listings.",
   note=TRUST + "ExternalLookup implementations are modelled as pure functions of (object, name). Assumed: no typed-nil *Env is bound as a value; strings.Contains is a pure predicate; reflect.ValueOf/TypeOf are pure.",
   technique="contract-based deductive verification: VCs from go/ssa against a dictionary-chain view, discharged by z3/cvc5",
   ref="4 C12"),
@@ -142,6 +149,18 @@ CLAIMS = {
   note=TRUST + "Assumed: reflect.Value.Elem of a non-nil interface value yields the wrapped value (trusted reflect contract).",
   technique="contract-based deductive verification: operator postconditions over unwrap(operand), z3/cvc5",
   ref="4 C20"),
+ 'C03': dict(
+  text="Three groups of obligations over the real parser package; the goyacc LR driver and the semantic actions inside yyParse are trusted. "
+       "(1) LR table lemma: the constant tables goyacc compiled into parser.go (yyPact, yyAct, yyChk, yyDef, yyExca) are read from the typed AST of /repo's working tree, the productions from parser.go.y (numbering cross-checked against yyR2); lrAction(state, token) transcribes the driver's table lookup; "
+       "for every operator production p (binary, unary, ?:, ??, in) and every token b that can continue an expression (all binary operators, ?, ??, in, and the postfix starters ( [ .), ONE obligation: in EVERY LR state in which p is reducible the action on b is what the operator table of the property statement dictates "
+       "(optable pragmas in parser/zz_contracts_verif.go, not the %left/%right lines): reduce p when p binds tighter or equally-and-left-associative, shift otherwise; 575 obligations, solver-evaluated over the table entries; covers all contexts and nesting depths because an LR decision depends on the state only. "
+       "A failed fact (p, b) is replayed on the real parser: `a OP1 b OP2 z` and its explicitly parenthesised form are parsed with parser.ParseSrc and the trees compared (replay/lrtable). One known finding: chained `in` is right-associative (pinned by the existing suite). "
+       "(2) Operator recognition: 44 postconditions of Scanner.Scan generated from the token table (every two-character operator, `...`, `= <-`, every single-character token, each first character followed by something else): if the source at the token start (ghost posOffset = offset where Scan took the token's position) spells the operator, Scan returns exactly that token, its literal, and advances past it. "
+       "(3) Literals: toNumber's contract fixes which digits, base and sign reach strconv for every spelling (0x/-0x base 16, 0b/-0b base 2, '.' or exponent float64, else base 10) and that a strconv error is returned unchanged with the nil value; the proof found that -0b literals were rejected (repaired by a fix: commit). "
+       "NOT decided: that each semantic action puts the operands into the slots the production names (action extraction from yyParse was not built), keyword recognition through the opName map, the escape table of scanString and the digit grouping of scanNumber, that the literal actions report toNumber's error, the second clause 'the same value'.",
+  note=TRUST + "Assumed: goyacc's driver implements lrAction and hands each action the slots of its production; the step from 'every precedence decision is the table's' to 'the tree of every expression' is the standard LR argument (not machine-checked); strconv.ParseInt/ParseFloat are the oracle for what a digit string denotes; unicode.IsLetter is false on ASCII non-letters.",
+  technique="contract-based deductive verification: ground lemma over the compiled LR tables against the property's operator table; postconditions on Scan and toNumber; z3/cvc5; replay of table facts on the real parser",
+  ref="8.3 C03"),
  'C15': dict(
   text="Deductive proof, for all inputs, of the scanner/lexer half of the property: every Scanner method, Lexer.Lex/Error, Parse and ParseSrc "
        "is symbolically executed from the SSA of /repo's working tree against contracts kept in parser/zz_contracts_verif.go; obligations: memory "
